@@ -189,7 +189,7 @@ fn shape_for(kind: usize) -> usize {
 // ---------------------------------------------------------------------------------------------
 // S1: one requests() call, events on client connections only
 // ---------------------------------------------------------------------------------------------
-// @harness props=C07,C08,C09,C10,C13 props_thorough=C11,C03 tiers=quick:K=0,N=0,M=11|K=1,N=0,M=11,MEM=5|K=13,N=0,M=11,MEM=5|K=3,N=0,M=11|K=4,N=0,M=11|K=5,N=0,M=11|K=14,N=0,M=11|K=1,N=4,M=11|K=6,N=2,M=11|K=7,N=2,M=11|K=8,N=2,M=11|K=9,N=3,M=11|K=6,N=5,M=11|K=10,N=0,M=11|K=10,N=3,M=11|K=10,N=5,M=11;thorough:K=0,N=0,M=11|K=1,N=0,M=11,MEM=5|K=13,N=0,M=11,MEM=5|K=3,N=0,M=11|K=4,N=0,M=11|K=5,N=0,M=11|K=14,N=0,M=11|K=1,N=4,M=11|K=6,N=2,M=11|K=7,N=2,M=11|K=8,N=2,M=11|K=9,N=3,M=11|K=6,N=5,M=11|K=10,N=0,M=11|K=10,N=3,M=11|K=10,N=5,M=11|K=2,N=0,M=11,MEM=5|K=0,N=4,M=11|K=3,N=4,M=11|K=4,N=4,M=11|K=5,N=4,M=11|K=14,N=4,M=11|K=13,N=4,M=11|K=6,N=3,M=11|K=7,N=3,M=11|K=7,N=5,M=11|K=8,N=3,M=11|K=8,N=5,M=11|K=9,N=2,M=11|K=9,N=5,M=11|K=10,N=2,M=11|K=10,N=4,M=11 unwind=6 cap=600 mem=2 covers=2
+// @harness props=C07,C08,C09,C10,C13 props_thorough=C11,C03 tiers=quick:K=0,N=0,M=11|K=1,N=0,M=11,MEM=5|K=13,N=0,M=11,MEM=5|K=3,N=0,M=11|K=4,N=0,M=11|K=5,N=0,M=11|K=14,N=0,M=11|K=1,N=4,M=11|K=6,N=2,M=11|K=6,N=3,M=11|K=7,N=2,M=11|K=8,N=2,M=11|K=9,N=3,M=11|K=6,N=5,M=11|K=10,N=0,M=11|K=10,N=3,M=11|K=10,N=5,M=11;thorough:K=0,N=0,M=11|K=1,N=0,M=11,MEM=5|K=13,N=0,M=11,MEM=5|K=3,N=0,M=11|K=4,N=0,M=11|K=5,N=0,M=11|K=14,N=0,M=11|K=1,N=4,M=11|K=6,N=2,M=11|K=7,N=2,M=11|K=8,N=2,M=11|K=9,N=3,M=11|K=6,N=5,M=11|K=10,N=0,M=11|K=10,N=3,M=11|K=10,N=5,M=11|K=2,N=0,M=11,MEM=5|K=0,N=4,M=11|K=3,N=4,M=11|K=4,N=4,M=11|K=5,N=4,M=11|K=14,N=4,M=11|K=13,N=4,M=11|K=6,N=3,M=11|K=7,N=3,M=11|K=7,N=5,M=11|K=8,N=3,M=11|K=8,N=5,M=11|K=9,N=2,M=11|K=9,N=5,M=11|K=10,N=2,M=11|K=10,N=4,M=11 unwind=6 cap=600 mem=2 covers=2
 // @fn HttpServer::requests ClientConnection::read ClientConnection::write ClientConnection::is_done ClientConnection::clear_write_buffer HttpServer::epoll_mod HttpServer::epoll_del
 // @stubs std::fmt::format
 // @claim one polling step from any state satisfying the server invariant, with admissible events on the client connections: the call returns normally (never an error); afterwards every remaining connection satisfies the invariant again (pending output <=> AwaitingOutgoing with OUT interest; AwaitingIncoming => IN interest; no failed epoll_ctl); a connection is removed (deregistered and closed once) iff it is Closed with nothing pending and no request in flight; requests are yielded only with the id of the connection they were read from, as many as were parsed, and the in-flight count grows by exactly that number; a parse error yields nothing, leaves the count alone and queues exactly one 400; a queued 100-continue switches the connection to writing; at most one read and one write per connection and step, and never a write on a closed connection; the event buffer holds MAX_CONNECTIONS+2 entries
@@ -402,6 +402,7 @@ fn srv_kill() {
     let pre = view(&srv, C0);
     kani::assume(sinv_conn(&pre, C0));
     let w = world();
+    assert!(w.interest[KILL_FD as usize] == Some(IN_RD), "[C18] the kill switch must be registered level-triggered for IN: an edge-triggered or one-shot registration reports the shutdown only once");
     let other: Option<(RawFd, u32)> = if KA == 12 {
         w.backlog = 1;
         Some((LISTEN_FD, E_IN))
@@ -518,11 +519,11 @@ fn srv_limit_fixed_at_connect() {
 // ---------------------------------------------------------------------------------------------
 // S6: ClientConnection::read / enqueue_response on their own (C07 accounting, C13, C11)
 // ---------------------------------------------------------------------------------------------
-// @harness props=C07,C13,C11 props_thorough=C08,C10,C03 tiers=quick:K=0|K=1|K=2|K=3|K=4|K=5|K=13|K=14;thorough:K=0|K=1|K=2|K=3|K=4|K=5|K=13|K=14 unwind=6 cap=900 mem=2 covers=1
+// @harness props=C07,C13,C11 props_thorough=C08,C10,C03 tiers=quick:K=0|K=1|K=2|K=3|K=4|K=5|K=13|K=14|K=15;thorough:K=0|K=1|K=2|K=3|K=4|K=5|K=13|K=14|K=15 unwind=6 cap=900 mem=2 covers=1
 // @fn ClientConnection::read ClientConnection::enqueue_response ClientConnection::is_done
 // @stubs std::fmt::format
 // @claim ClientConnection::read for every outcome class of try_read: the requests handed to the caller are exactly the ones parsed (none after an error), the in-flight count grows by exactly their number and by nothing else (requests discarded by a parse error were never counted and are not subtracted), a parse error queues exactly one 400, pending output switches the connection to AwaitingOutgoing whether or not requests were yielded, end of stream closes it; then enqueue_response on that connection: count decremented by one, response queued unless the connection is closed; is_done <=> closed and nothing pending and count 0
-// @bounds read outcome K fixed per query (0 nothing, 1/2 requests, 3 100-continue, 4 parse error, 5 EOF, 13/14 one request followed by 3/4); in-flight count before symbolic 0..3
+// @bounds read outcome K fixed per query (0 nothing, 1/2 requests, 3 100-continue, 4 parse error, 5 EOF, 13/14 one request followed by 3/4, 15 two requests followed by a parse error); in-flight count before symbolic 0..3
 #[kani::proof]
 #[kani::stub(std::fmt::format, format_stub)]
 fn cc_read() {
@@ -550,6 +551,7 @@ fn cc_read() {
             assert!(yielded == 0, "[C07,C11] requests yielded although the input was rejected");
             assert!(cc.in_flight_response_count == before, "[C07,C10] in-flight count changed by a parse error");
             assert!(ck::queue_len(&cc.connection) == 1 && ck::last_queued_status(&cc.connection) == Some(StatusCode::BadRequest), "[C11] parse error must be answered with exactly one 400");
+            assert!(ck::parsed_len(&cc.connection) == 0, "[C11,C07] requests parsed before the rejected one must be discarded, not yielded by a later poll");
             assert!(state_code(&cc.state) == 1, "[C08,C13] pending output but connection not switched to writing");
         }
         5 => {
@@ -614,5 +616,36 @@ fn srv_flush() {
     }
     assert!(sinv_conn(&v, C0), "[C08,C09] after flush_outgoing_writes the epoll registration does not match the connection state: the next poll gets a write-readiness event for a connection with nothing to send");
     kani::cover!(true, "end reached");
+    std::mem::forget(srv);
+}
+
+// ---------------------------------------------------------------------------------------------
+// S8: enqueue_responses keeps the order the application supplied (C07)
+// ---------------------------------------------------------------------------------------------
+// @harness props=C07 props_thorough=C03 tiers=experimental:N=0|N=2 unwind=6 cap=900 mem=2 covers=1
+// @fn HttpServer::enqueue_responses HttpServer::respond
+// @stubs std::fmt::format
+// @claim a batch of two responses for the same connection is appended to that connection's output in the order the application supplied them (first the 204, then the 200), both are counted
+// @bounds NOT DISCHARGED (runs out of memory at 16 GB: a Vec of two ServerResponses consumed by value plus two queue pushes) - parked; one connection in shape N with 2..3 requests in flight; batch of two responses with distinct status codes
+#[kani::proof]
+#[kani::stub(std::fmt::format, format_stub)]
+fn srv_enqueue_batch() {
+    let mut srv = mk_server(kani::any());
+    add_conn(&mut srv, C0, crate::verif_params::N);
+    let pre = view(&srv, C0);
+    kani::assume(sinv_conn(&pre, C0) && pre.in_flight >= 2);
+    let batch = vec![
+        ServerResponse::new(Response::new(Version::Http11, StatusCode::NoContent), C0 as u64),
+        ServerResponse::new(Response::new(Version::Http11, StatusCode::OK), C0 as u64),
+    ];
+    let r = srv.enqueue_responses(batch);
+    assert!(r.is_ok(), "[C07,C08] enqueue_responses failed");
+    let v = view(&srv, C0);
+    assert!(v.in_flight == pre.in_flight - 2 && v.queued == pre.queued + 2, "[C07] batch not queued / counted completely");
+    let c = &srv.connections.get(&C0).unwrap().connection;
+    assert!(ck::queued_status(c, pre.queued) == Some(StatusCode::NoContent) && ck::queued_status(c, pre.queued + 1) == Some(StatusCode::OK), "[C07] responses of one batch queued out of the order the application supplied");
+    assert!(sinv_conn(&v, C0));
+    kani::cover!(true, "end reached");
+    std::mem::forget(r);
     std::mem::forget(srv);
 }
